@@ -54,25 +54,25 @@ add("C06", "exploration",
 
 add("C14", "fault_enumeration",
     "runtime monitoring with fault injection: a database/sql driver wrapper numbers the driver calls of a batch and fails, cancels or kills the process at every call index; model comparison after every attempt, retry, repetition and reopen; race detector",
-    "For the chosen batch of each history every driver call (begin, each prepare, every statement exec, commit) is faulted in turn with an injected error and with a context cancellation, and sampled (thorough: all) calls with a process kill in a child process; after each faulted attempt, each retry, the final success, two repetitions and every close/reopen the query panel must equal the model (failed = no-op, returned nil = applied once). Exhaustive over call indexes per enumerated batch; histories are sampled." + RACE,
+    "For the chosen batch of each history every driver call (begin, each prepare, every statement exec, commit) is faulted in turn with an injected error and with a context cancellation, and sampled (thorough: all) calls with a process kill in a child process; after each faulted attempt, each retry, the final success, two repetitions and every close/reopen the query panel must equal the model (failed = no-op, returned nil = applied once); 500-700-event batches get faults at sampled late calls; plain histories also run in child processes whose pwrite64/fsync/fdatasync calls are failed by strace. Exhaustive over call indexes per enumerated batch; histories are sampled." + RACE,
     "Trusts the fault driver wrapper (kit/faultsql, forwards every optional interface go-sqlite3 implements) and the SQLite model; faults inside SQLite's own I/O layer are not injected; kill = os.Exit in a child, not power loss.",
     "DESIGN.md section 4, C14")
 
 add("C16", "exploration",
     "runtime monitoring: reply-grouping checker over pipelined sessions on CacheHandler/SQLiteHandler, retention and query specification as oracles, dump/restore differential; race detector",
-    "Each generated client message sequence runs as one real session; the reply stream must parse into per-request groups in request order (one OK with the id, events+one EOSE with the sub id, one COUNT, nothing for CLOSE/AUTH); cache OK verdicts are judged by the retention specification and REQ answers by the query specification; Dump->Restore into a fresh cache must answer a 41-list panel identically. Held on the sequences counted in the evidence." + RACE,
+    "Each generated client message sequence runs as one real session; the reply stream must parse into per-request groups in request order (one OK with the id, events+one EOSE with the sub id, one COUNT, nothing for CLOSE/AUTH); cache OK verdicts are judged by the retention specification and REQ answers by the query specification; Dump->Restore into a fresh cache must answer a 41-list panel identically (also for caches holding hundreds of tie-prone events); the SQLite handler must keep accepting while its inserter is stalled. Held on the sequences counted in the evidence." + RACE,
     "Trusts kit/storespec.go, kit/sqlmodel.go; the cache handler's verdict for ephemeral events is not judged (C04 and C16 read differently there); SQLite REQs are issued at quiescence (sentinel row polled).",
     "DESIGN.md section 4, C16")
 
 add("C07", "exploration",
     "runtime monitoring: offline must/must-not/may checker over logical-clock-stamped delivery histories of concurrent router sessions; back-pressure progress check with stack witness; registry conservation; race detector + verifPoint delays",
-    "2-8 concurrent scripted connections per run (REQ, re-REQ, CLOSE of open and unknown ids, EVENT, disconnects), every send/receipt stamped on one logical clock; every (subscription instance, publication) pair is classified by real-time order and deliveries must be exactly-once for must, absent for must-not, never duplicated, own sub ids only, in publication order per publisher; back-pressure runs with stalled readers require publishers to finish and draining subscribers to lose nothing. Held on the runs/pairs counted in the evidence under GOMAXPROCS 16/4/1." + RACE,
+    "2-8 concurrent scripted connections per run (REQ, re-REQ, CLOSE of open and unknown ids, EVENT, disconnects), every send/receipt stamped on one logical clock; every (subscription instance, publication) pair is classified by real-time order and deliveries must be exactly-once for must, absent for must-not, never duplicated, own sub ids only, in publication order per publisher; back-pressure runs with stalled readers (paced publishers with draining subscribers; unpaced publishers racing for the last slot of a tiny buffer) require publishers to finish and draining subscribers to lose nothing. Held on the runs/pairs counted in the evidence under GOMAXPROCS 16/4/1." + RACE,
     "Schedules are sampled (no controllable scheduler); the lower bound is waived for subscriptions of connections cut during the run; 'never delays publishers' is judged as bounded progress with a parked-goroutine witness.",
     "DESIGN.md section 4, C07")
 
 add("C15", "exploration",
     "runtime monitoring: porcupine linearizability checking of logical-clock-stamped Add/Find/Len histories against the sequential retention/query specification; concurrent invariant probes; Go race detector; verifPoint delays inside critical sections",
-    "2-8 goroutines (directly and through concurrent CacheHandler sessions) issue related insertions, queries and listings on one small store; each recorded history must be linearizable w.r.t. the deterministic sequential specification (porcupine; a timeout is inconclusive); a long stress mix checks every concurrent listing against the store invariants; any race report in mocrelay frames is a violation. Held on the histories counted in the evidence." + RACE,
+    "2-8 goroutines (directly and through concurrent CacheHandler sessions) issue related insertions, queries and listings on one small store; each recorded history must be linearizable w.r.t. the deterministic sequential specification (porcupine; a timeout is inconclusive); a long stress mix checks every concurrent listing against the store invariants; the router registry is stressed with concurrent subscribe/close/disconnect/publish; any race report in mocrelay frames is a violation. Held on the histories counted in the evidence." + RACE,
     "Schedules are sampled; histories use pairwise distinct created_at so that the sequential specification is deterministic; the race detector only sees paths the workload drives concurrently.",
     "DESIGN.md section 4, C15")
 
@@ -96,19 +96,19 @@ add("C17", "exploration",
 
 add("C18", "exploration",
     "runtime monitoring: per-session shadow models (open set; last-size-distinct-ids window) judging sequential sessions that run concurrently on one shared middleware value; downstream open-count invariant; race detector",
-    "3k / 60k groups of 2-6 concurrent sessions on one shared MaxSubscriptions / RecvEventUniqueFilter / SendEventUniqueFilter value (alone and stacked) over 2-6-id alphabets, N and window sizes 1-4; each sequential session is judged step by step against independent models (forwarded iff open or fewer than N open; in-window ids rejected/suppressed, never-seen ids forwarded/delivered, outside-window either), plus foreign-tag detection and second-wave sessions for isolation; every quota boundary cell and window rank is required to have been observed." + RACE,
+    "3k / 60k groups of 2-6 concurrent sessions on one shared MaxSubscriptions / RecvEventUniqueFilter / SendEventUniqueFilter value (alone and stacked) over 2-6-id alphabets, N and window sizes 1-4; each sequential session is judged step by step against independent models (forwarded iff open or fewer than N open; in-window ids rejected/suppressed, never-seen ids forwarded/delivered, outside-window either), plus foreign-tag detection and second-wave sessions for isolation; the downstream handler also answers forwarded events with OK true/false, which must not affect the window; every quota boundary cell and window rank is required to have been observed." + RACE,
     "Only N/size <= 4 and <= 6 concurrent connections; forwarding of CLOSE itself, server-side CLOSED and message texts other than the duplicate: prefix are not claimed.",
     "DESIGN.md section 4, C18")
 
 add("C19", "exploration",
     "runtime monitoring: transparency check plus conservation of gauges/counters (Registry.Gather) against both-side recordings at quiescent points of multi-session histories incl. simultaneous start/end bursts; race detector",
-    "At every quiescent point of every generated multi-session history (mixed scripts, a real MaxSubscriptions inside emitting CLOSED, churn, simultaneous-start/end bursts) the values read through Registry.Gather() must equal what the two sides of the middleware recorded: connection gauge = live sessions, subscription gauge = shadow open sets, per-type/per-kind counters = messages crossed, and every message must come out unaltered and in order. Held on the executions counted in the evidence." + RACE,
+    "At every quiescent point of every generated multi-session history (mixed scripts, a real MaxSubscriptions inside emitting CLOSED, churn, simultaneous-start/end bursts, client CLOSE racing server CLOSED / session end) the values read through Registry.Gather() must equal what the two sides of the middleware recorded: connection gauge = live sessions, subscription gauge = shadow open sets, per-type/per-kind counters = messages crossed, and every message must come out unaltered and in order. Held on the executions counted in the evidence." + RACE,
     "Trusts the monitor's boundary handler/recorders and the causal chaining of REQ/CLOSE/CLOSED per (session, id); counters of sessions cut with a message in flight are accepted between 'forwarded' and 'taken'; UNDEFINED message types and the response-time summary are not judged.",
     "DESIGN.md section 4, C19")
 
 add("C20", "exploration",
     "runtime monitoring: httptest request matrix against ServeMux in all four configurations with a routing oracle (recording relay handler, relay logger, marker default handler), real websocket handshakes, independent NIP-11 reference reader/writer for round trips; race detector",
-    "8k / 150k seeded requests (Upgrade absent / full websocket handshake / defective handshake / other token x Accept absent / exact / near / other x methods x paths, over real connections and direct ServeHTTP) are judged by a routing oracle; served bodies are read by an independent reference reader and compared with the configured document along with Content-Type and CORS headers; 4k / 80k generated NIP11 values (all fields, single/ascending/descending/zero-ended kind entries) are checked for decode(encode(v)) = v and decode/re-encode stability of independently written texts incl. [k,k] pairs." + RACE,
+    "8k / 150k seeded requests (Upgrade absent / full websocket handshake / defective handshake / other token x Accept absent / exact / near / other x methods x paths, over real connections and direct ServeHTTP) are judged by a routing oracle; served bodies are read by an independent reference reader and compared with the configured document along with Content-Type and CORS headers; 4k / 80k generated NIP11 values (all fields, single/ascending/descending/zero-ended kind entries) with bounds up to +-2^63 are checked for decode(encode(v)) = v and decode/re-encode stability of independently written texts incl. [k,k] pairs; the configured document is changed in place between requests and every response must equal it as it then is." + RACE,
     "Near-miss Accept values (lists, parameters, case) are not claimed; with no document configured only 'valid JSON, empty document' is judged; values are sampled, not exhaustive.",
     "DESIGN.md section 4, C20")
 
@@ -126,13 +126,13 @@ add("C09", "exploration",
 
 add("C12", "exploration",
     "runtime monitoring: recording handler behind NewRelay + real WebSocket client (coder/websocket) with pipelined seeded frame sequences; frame-by-frame conservation oracle (admitted = valid authentic frames in order; one rejection per other frame; handler output intact and ordered); race detector",
-    "Per connection 20-200 pipelined frames: valid messages of all five types, genuine hostile-content events, every C11 corruption class, non-messages, invalid UTF-8, binary frames, unsigned / altered-after-admission / wrong-canonicalisation / unparsable-key events; the handler log must equal the valid authentic frames once each in order, the client must get exactly one rejection per other frame, a sentinel REQ after the last frame must still get through, and every marked handler emission (all seven server message types, hostile strings) must arrive as one text frame decoding to the emitted value, in order. Held on the connections/frames counted in the evidence." + RACE,
+    "Per connection 20-200 pipelined frames: valid messages of all five types, genuine hostile-content events, every C11 corruption class, non-messages, invalid UTF-8, binary frames, unsigned / altered-after-admission / wrong-canonicalisation / unparsable-key events; the handler log must equal the valid authentic frames once each in order, the client must get exactly one rejection per other frame, a sentinel REQ after the last frame must still get through, and every marked handler emission (all seven server message types, hostile strings) must arrive as one text frame decoding to the emitted value, in order; some sessions outlive the send timeout while their peer keeps reading. Held on the connections/frames counted in the evidence." + RACE,
     "Frames stay within the configured size limit and rate limit (both raised); rejections are counted, not matched to frames (a NOTICE does not name its frame); reuses C11's generators and reference validator for what a frame denotes.",
     "DESIGN.md section 4, C12")
 
 add("C13", "exploration",
     "runtime monitoring: goroutine-leak monitor (runtime.Stack attribution by creating frame), registry/gauge conservation and a bounded-progress watchdog with parked-goroutine witness over seeded handler compositions x histories x cut points x endings; stalled raw-TCP WebSocket peer for the send-timeout clause; race detector",
-    "Seeded compositions (default, cache, router, SQLite, merges nested once; 0-5 of all provided middlewares incl. Prometheus and NIP-11 chains) serve a seeded history that is cut at a seeded point by cancel (peer draining or stalled) or inbound close; ServeNostr must return within the bound (witness: a goroutine parked in mocrelay code), no goroutine started by mocrelay code during the session may survive, router registries and Prometheus gauges must be back at their previous values; a raw TCP peer that finishes the WebSocket handshake and never reads must be dropped within 50 x send timeout for every send-timeout x ping-interval (incl. disabled) x start-delay combination. Held on the sessions/compositions counted in the evidence." + RACE,
+    "Seeded compositions (default, cache, router, SQLite, merges nested once; 0-5 of all provided middlewares incl. Prometheus and NIP-11 chains) serve a seeded history that is cut at a seeded point by cancel (peer draining or stalled) or inbound close; ServeNostr must return within the bound (witness: a goroutine parked in mocrelay code), no goroutine started by mocrelay code during the session may survive, router registries and Prometheus gauges must be back at their previous values; a SQLite session must return on cancel even while its bulk inserter is stalled by a foreign write lock and the queue is full; a raw TCP peer that finishes the WebSocket handshake and never reads must be dropped within 50 x send timeout for every send-timeout x ping-interval (incl. disabled) x start-delay combination. Held on the sessions/compositions counted in the evidence." + RACE,
     "Liveness is restated as bounded progress on an otherwise idle process (sessions run one at a time so that goroutines can be attributed); the WebSocket clause is judged in wall-clock time with a 50x margin (the property itself is about time).",
     "DESIGN.md section 4, C13")
 
